@@ -452,6 +452,19 @@ class Emitter:
             if self.analysis is None:
                 self.analysis = self.analyze_scalar(self.event.value)
             length += len(self.analysis.scalar)
+            # Non-ASCII characters may be written as escapes of up to ten
+            # characters (characters beyond the BMP always are in a quoted key);
+            # a simple key longer than 1024 characters cannot be read back.
+            written = length
+            for ch in self.analysis.scalar:
+                if ch > '\uFFFF':
+                    written += 9
+                elif ch > '\xFF':
+                    written += 5
+                elif ch > '\x7E':
+                    written += 3
+            if written > 1000:
+                return False
         return (length < 128 and (isinstance(self.event, AliasEvent)
             or (isinstance(self.event, ScalarEvent)
                     and not self.analysis.empty and not self.analysis.multiline)
